@@ -3,7 +3,7 @@
 translate : payload key constants + the guards of serde.dump / load / _load and the shape of
             Expression.__reduce__ (ast of sqlglot/serde.py, sqlglot/expressions/core.py) -> Generated/C12.lean
 prove     : Properties/C12.lean (dump = pre-order; load(dump t) = norm t for every tree; closed form of the loaded
-            object graph incl. parent links; JSON encoding of payloads round-trips)
+            object graph incl. parent links; norm is a projection invisible to dump; payload keys distinct)
 correspond: real trees (parsed in many dialects, raw / annotate_types / qualify; directly constructed instances of
             every Expression subclass covering every arg kind) -> real dump() payloads compared element-wise with the
             model's dump, model load of the real payloads compared with the real load(); plus mutated payload lists
